@@ -482,9 +482,8 @@ def run_kex_case(ctx, case, rng):
             ctx.inconclusive("re-key with in-flight close did not complete: %s" % errs)
             return
         # renegotiate_keys() returns when the peer's NEWKEYS was parsed; the messages held back during the exchange are
-        # flushed by the transport thread right after that: wait for that state, not for a quiet link alone
-        settled = pair.wait_for(lambda: all(t.clear_to_send.is_set() and not getattr(t, "_deferred_user_messages", ())
-                                           for t in (p.tc, p.ts)) and p.link.quiescent(0.1), 30, 0.005)
+        # flushed by the transport thread right after that, and only then is clear_to_send set again: wait for that state
+        settled = pair.wait_for(lambda: all(t.clear_to_send.is_set() for t in (p.tc, p.ts)) and p.link.quiescent(0.1), 30, 0.005)
         if not settled:
             ctx.inconclusive("transports did not settle after the re-key (kex stratum)")
             return
@@ -514,8 +513,7 @@ def run_kex_case(ctx, case, rng):
             if t.is_alive() or errs:
                 ctx.inconclusive("idle re-key did not complete: %s" % errs)
                 return
-            pair.wait_for(lambda: all(t.clear_to_send.is_set() and not getattr(t, "_deferred_user_messages", ())
-                                      for t in (p.tc, p.ts)) and p.link.quiescent(0.1), 30, 0.005)
+            pair.wait_for(lambda: all(t.clear_to_send.is_set() for t in (p.tc, p.ts)) and p.link.quiescent(0.1), 30, 0.005)
             ctx.count("idle_rekeys_after_close")
             for e in p.rec.snapshot()[mark:]:
                 if e.get("kind") == "msg" and e["dir"] == "out" and e["type"] >= 80:
@@ -899,7 +897,7 @@ def run(ctx):
         case = gen_kex_case(rng, i * ctx.nshards + ctx.shard)
         r = ctx.guard(run_kex_case, ctx, case, rng)
         ctx.case(("c22-kex", repr(case)), sample=case if i == 0 else None, nontrivial=bool(r))
-    n = ctx.pick(30, 300)
+    n = ctx.pick(20, 300)
     dl = ctx.deadline(30, 400)
     for i in range(n):
         if time.time() > dl:
